@@ -44,14 +44,14 @@ CLAIMED = {
   text="For every sequence of up to 3-4 comments drawn from templates with 0-2 tag events each (tags on first or later comment lines, end tags also in the `</ block >` spelling), with symbolic comment geometry, the MIR of parse_blocks_from_comments / PartialBlocksIterator::next returns Err exactly when the running depth dips below 0 or ends above 0; and through parse_file / parse_blocks, with a damaged file among two healthy ones in scan and in diff mode and several map orders, the run returns Err whose context names the damaged file.",
   note="Stubs: tree-sitter (Comment values), FileSystem / PathChecker / grammar lookup. The tag scanner and grammar run from the crate's MIR on the comment text of each template (winnow combinators are models, see C05)."),
  'C11': dict(
-  text="On the MIR of main::process_violations: for every assignment of severities (symbolic) to up to N violations over up to 3 files and every map order, process::exit(1) is reached iff some severity is Error, and the map handed to the JSON writer holds every violation exactly once under its file. On validators::run / run_sync_validators with 2-3 model validators reporting on symbolic subsets of files or failing: the merged map is the disjoint union, any failure is a failure of the run. Block::severity accepts exactly error|warning|info|hint in any letter case (every attribute string up to N bytes), default Error.",
-  note="Threads are modelled as a sequential schedule. Outside: the async half of run (tokio), the JSON text layout, `list`, stdout/stderr plumbing (recording stubs)."),
+  text="On the MIR of main::process_violations: for every assignment of severities (symbolic) to up to N violations over up to 3 files and every map order, process::exit(1) is reached iff some severity is Error, and the map handed to the JSON writer holds every violation exactly once under its file. On validators::run / run_sync_validators / run_async_validators (coroutine MIR) with 2-3 model validators, sync and async in every split, reporting on symbolic subsets of files or failing, and every completion order of the tokio tasks: the merged map is the disjoint union, any failure is a failure of the run. Block::severity accepts exactly error|warning|info|hint in any letter case (every attribute string up to N bytes), default Error.",
+  note="Threads are modelled as a sequential schedule, tokio tasks as atomic steps in every completion order. Outside: the JSON text layout, stdout/stderr plumbing (recording stubs)."),
  'C14': dict(
   text="On the MIR of detect_validators, the seven detect impls and the DETECTOR_FACTORIES table: for blocks carrying every subset of a task's three validators' attributes (symbolic), every subset of those names in -d or in -e (symbolic membership), 1-3 blocks over 1-2 files and several map orders, the instantiated validators are exactly those allowed and needed, each once, filed as sync/async correctly. parse_validator accepts exactly the seven names (every string up to 12-13 bytes over their letters); Args::validate rejects -d together with -e.",
   note="Triples of validators instead of all seven at once (all 35 triples in the thorough tier). clap is not encoded; OpenAiClient::new_from_env is a stub; that each validator emits only its own code is asserted in C06-C10."),
  'C13': dict(
-  text="For every value (symbolic bytes, up to N) of keep-sorted, keep-sorted-format, affects and severity, every key text under numeric sort, a menu of uncompilable regexes for the three regex attributes, and short/overflowing line-count expressions, with the bad block placed before/after healthy blocks: Z3 shows on the validators' MIR that a value outside the attribute's accepted language (written as a formula over the bytes) makes validate return Err, a value inside does not, and through validators::run the Err of one validator among healthy ones is the result of the run.",
-  note="Don't-care: values that trim to a valid word but carry surrounding blanks. Regex compilation comes from the reference model, not the regex crate. Outside: Lua/AI malformations (async), the exit code of the process itself."),
+  text="For every value (symbolic bytes, up to N) of keep-sorted, keep-sorted-format, affects and severity, every key text under numeric sort, a menu of uncompilable regexes for the three regex attributes, and short/overflowing line-count expressions, with the bad block placed before/after healthy blocks: Z3 shows on the validators' MIR that a value outside the attribute's accepted language (written as a formula over the bytes) makes validate return Err, a value inside does not, and through validators::run the Err of one validator among healthy ones is the result of the run. Async rules (coroutine MIR, stubs of C18/C19): every check-lua path / check-ai condition of up to 2-3 bytes over {space, tab, A} (blank => Err), missing script, script without validate, unset or empty API key, uncompilable check-lua-pattern / check-ai-pattern, each among healthy blocks and validators in both orders.",
+  note="Don't-care: values that trim to a valid word but carry surrounding blanks. Regex compilation comes from the reference model, not the regex crate. Outside: the exit code of the process itself (C11), what a real Lua VM / endpoint does (contract stubs)."),
  'C17': dict(
   text="On the MIR of lua_from_env, for BLOCKWATCH_LUA_MODE unset and for every value of up to N bytes: exactly `safe` selects the safe constructor (io, os, package present; no debug, no native loading), exactly `unsafe` the unsafe one, every other string yields an interpreter whose globals contain none of io, os, package, debug, require, dofile, loadfile and which cannot load native modules.",
   note="The Lua VM and mlua are a contract stub (library flags as sets, base library per the Lua 5.4 manual, native loading per mlua's constructors); the contract is compared with the real VM through a probe script on sampled modes in every run. What the Lua C library does beyond that is outside."),
